@@ -104,6 +104,7 @@ func (c08) Gen(r *world.Rng, tier string, n int) interface{} {
 			case 1: // raised by the host between two calls
 			default:
 				ev.AtTick = uint64(r.Range(1, 1200))
+				ev.Force = r.Chance(1, 4) // a device that overwrites the slot, possibly during an acceptance
 			}
 			sc.Events = append(sc.Events, ev)
 		}
